@@ -1,7 +1,7 @@
 (* C06 — pinned theorems.  This file contains statements, `exact`, and Print Assumptions only. *)
 From Coq Require Import List String ZArith.
-From GV Require Import Base.Utf8 Lib.PrimSig Lib.Prims Lib.PrimsProofs.
-From GVgen Require Import PrimTableGen.
+From GV Require Import Base.Utf8 Lib.PrimSig Lib.Prims Lib.PrimsProofs Lib.StackReset Lib.StackResetProofs.
+From GVgen Require Import PrimTableGen StackResetGen.
 Import ListNotations.
 Open Scope Z_scope.
 
@@ -121,3 +121,40 @@ Theorem C06_coverage : forall e,
   exists c, callee_of e = Some c /\ List.length (c_sig c) = e_arity e.
 Proof. exact coverage. Qed.
 Print Assumptions C06_coverage.
+
+(* ---- the stack after a failed top-level evaluation (Lib/StackReset.v) ---- *)
+
+(* reset_stack leaves exactly the frames of the caller and does not remove any value. *)
+Theorem C06_reset_frames_restored : forall before failed,
+  extends before failed ->
+  frames (reset_stack failed (List.length (frames before))) = frames before
+  /\ nvalues (reset_stack failed (List.length (frames before))) = nvalues failed.
+Proof. exact reset_frames_restored. Qed.
+Print Assumptions C06_reset_frames_restored.
+
+(* If the top level truncates the values (flag read from vm/src/thread.rs), a failed evaluation
+   leaves the stack exactly as it found it. *)
+Theorem C06_reset_restores : 
+  top_level_truncates_values = true ->
+  forall before failed, extends before failed -> fail_top top_level_truncates_values before failed = before.
+Proof. exact reset_restores_current. Qed.
+Print Assumptions C06_reset_restores.
+
+(* If it does not, the stack is not restored ... *)
+Theorem C06_reset_leaks_refuted :
+  top_level_truncates_values = false ->
+  exists before failed, extends before failed /\ fail_top top_level_truncates_values before failed <> before.
+Proof. exact reset_leaks_current_refuted. Qed.
+Print Assumptions C06_reset_leaks_refuted.
+
+(* ... and n failing evaluations leave n times their values behind (unbounded growth), while with
+   the truncation any number of failures leaves the stack unchanged. *)
+Theorem C06_repeated_failures_grow : forall n s pf pv,
+  nvalues (repeat_fail false n s pf pv) = (nvalues s + n * pv)%nat
+  /\ frames (repeat_fail false n s pf pv) = frames s.
+Proof. exact repeated_failures_grow. Qed.
+Print Assumptions C06_repeated_failures_grow.
+
+Theorem C06_repeated_failures_fixed : forall n s pf pv, repeat_fail true n s pf pv = s.
+Proof. exact repeated_failures_fixed. Qed.
+Print Assumptions C06_repeated_failures_fixed.
